@@ -34,8 +34,12 @@ inline bool glob(const std::string& pat, const std::string& s, size_t pi = 0, si
 }
 
 inline bool holds(double l, const std::string& op, double r) {
-    if (op == ">") return l > r; if (op == "<") return l < r; if (op == ">=") return l >= r; if (op == "<=") return l <= r;
-    if (op == "=") return l == r; return l != r;
+    if (op == ">") return l > r;
+    if (op == "<") return l < r;
+    if (op == ">=") return l >= r;
+    if (op == "<=") return l <= r;
+    if (op == "=") return l == r;
+    return l != r;
 }
 
 inline int month_index(const std::string& s) {
